@@ -14,6 +14,7 @@ import (
 	"time"
 
 	"github.com/veesix-networks/osvbng/pkg/component"
+	"github.com/veesix-networks/osvbng/pkg/dataplane"
 	"github.com/veesix-networks/osvbng/pkg/events"
 	"github.com/veesix-networks/osvbng/pkg/ifmgr"
 	"github.com/veesix-networks/osvbng/pkg/opdb"
@@ -51,8 +52,16 @@ func (s *c12SB) IPoESetDelegatedPrefix(sw uint32, prefix net.IPNet, nextHop net.
 var c12Kpd = 1
 
 type c12IPoE struct {
-	e *c12Env
-	c *Component
+	e     *c12Env
+	c     *Component
+	taken chan struct{}
+}
+
+func (p *c12IPoE) pktTaken() chan struct{} { return p.taken }
+func (p *c12IPoE) stop() {
+	if p.c != nil {
+		p.c.Stop(context.Background())
+	}
 }
 
 func (p *c12IPoE) newComponent(h *c12Handle) {
@@ -61,18 +70,27 @@ func (p *c12IPoE) newComponent(h *c12Handle) {
 	ifMgr := ifmgr.New()
 	ifMgr.Add(&ifmgr.Interface{SwIfIndex: 10, SupSwIfIndex: 2, Name: "TenGigE0/0.100", Type: ifmgr.IfTypeSub, OuterVlanID: 100})
 	ifMgr.Add(&ifmgr.Interface{SwIfIndex: 2, Name: "TenGigE0/0", Type: ifmgr.IfTypeHardware, MAC: []byte{0x52, 0x54, 0x00, 0x11, 0x22, 0x33}})
-	c, err := New(component.Dependencies{EventBus: e.bus, Cache: e.cache, Southbound: e.sb, ConfigManager: e.cfgm, OpDB: h}, nil, ifMgr, nil, nil)
+	// a DHCP packet is already waiting when the component starts (unbuffered: the send completes when the packet
+	// consumer takes it); it carries no DHCP layer and is dropped by processDHCPPacket
+	ch := make(chan *dataplane.ParsedPacket)
+	taken := make(chan struct{})
+	go func() {
+		ch <- &dataplane.ParsedPacket{}
+		e.log.add("PKT")
+		close(taken)
+	}()
+	c, err := New(component.Dependencies{EventBus: e.bus, Cache: e.cache, Southbound: e.sb, ConfigManager: e.cfgm, OpDB: h,
+		DHCPChan: ch}, nil, ifMgr, nil, nil)
 	if err != nil {
 		panic(err)
 	}
-	c.StartContext(context.Background())
-	c.raBucketCount = 4
 	p.c = c
+	p.taken = taken
 }
 
 func (p *c12IPoE) restore() {
-	if err := p.c.restoreSessions(context.Background()); err != nil {
-		p.e.log.add("RESTOREERR")
+	if err := p.c.Start(context.Background()); err != nil {
+		p.e.log.add("STARTERR")
 	}
 }
 
